@@ -230,3 +230,99 @@ def run(m):
 
 bounded("C13", "bounded/C13.py")
 not_covered("C13", "cols:0 / non-numeric cols (no documented reference behaviour; C02 only requires a Liquid error)", "ForNode/TablerowNode.render_to_output and LoopExpression.evaluate are covered by the bounded template-level check (sync and async), not by their own symbolic contract")
+
+
+# ---- ForNode: the else block is rendered exactly when no item is visited; every block render
+# ---- sees the current item and consistent helpers; break/continue never escape the loop ----
+
+from contracts.common import *  # noqa: F403,E402
+
+FORNODE = "liquid.builtin.tags.for_tag:ForNode"
+LOOPEXPR = "liquid.builtin.expressions.loop:LoopExpression"
+
+
+def _for_node(sfx, has_default):
+    from pyvc.exec import Obligation
+
+    @contract(FORNODE + ".render_to_output" + sfx, prop="C13", name=f"ForNode.render_to_output{sfx}[else={'present' if has_default else 'absent'}]")
+    def fr(c):
+        env = mk_env(c, loop_iteration_limit=NONE)
+        ctx = mk_ctx(c, env, loops=c.st.alloc(HList(items=[])))
+        c.requires(c.st.deref(env).fields["context_depth_limit"].t >= 8, "context depth limit not reached")
+        items = c.seq("items")
+        it = c.st.alloc(HIter(items, z3.IntVal(0)))
+        ident = const("item")   # any loop variable name other than `forloop` (the namespace is keyed by it)
+        expr = c.obj(LOOPEXPR, "loop_expression", identifier=ident, iterable=c.str("iterable_text"))
+        block = c.obj("liquid.ast:BlockNode", "block")
+        default = c.obj("liquid.ast:BlockNode", "else_block") if has_default else NONE
+        self = c.obj(FORNODE, "for", expression=expr, block=block, default=default, token=NONE)
+        c.summary(LOOPEXPR + ".evaluate" + sfx, lambda eng, st, a, k: [(st, VTuple((it, VInt(L(items)))))])
+        parent = c.any("parentloop")
+        c.summary(CTX + ".parentloop", lambda eng, st, a, k: [(st, parent)])
+        scope = c.st.deref(ctx).fields["scope"]
+
+        def render(eng, st, a, k):
+            which = "block" if a[0] == block else "else"
+            outs = []
+            if which == "block":
+                # callee precondition at every render of the loop body: the innermost namespace
+                # binds the loop variable to the item just taken and `forloop` to its helpers
+                ns = st.deref(st.deref(scope).fields["_maps"]).items[0]
+                fl = st.deref(ns).items.get("forloop")
+                pos = st.deref(it).pos
+                cur = [st.deref(ns).items["item"]] if "item" in st.deref(ns).items else []
+                ok = z3.And(pos >= 1, pos <= L(items), *[box(v) == items[pos - 1] for v in cur]) if (cur and isinstance(fl, VRef)) else z3.BoolVal(False)
+                if isinstance(fl, VRef):
+                    ff = st.deref(fl).fields
+                    ok = z3.And(ok, ff["_index"].t == pos - 1, ff["length"].t == L(items))
+                eng.obligations.append(Obligation("callee-pre", "block-render:sees-the-current-item-and-consistent-forloop", list(st.pc), ok, "ForNode loop body"))
+            st.log.append(("rendered", which))
+            for cls in (None, "ContinueLoop", "BreakLoop", "LiquidSyntaxError"):
+                s = st.fork()
+                outs.append((s, VInt(z3.Int(f"chars_{len(st.log)}"))) if cls is None else (s, Raised(VExc(cls, (const(cls),)))))
+            return outs
+        c.summary("liquid.ast:BlockNode.render" + sfx, render)
+        c.summary("liquid.ast:Node.render" + sfx, render)
+
+        def inv(e):
+            fl = e.st.locals.get("forloop")
+            if not isinstance(fl, VRef):
+                return z3.BoolVal(False)
+            ff = e.st.deref(fl).fields
+            pos = e.st.deref(it).pos
+            return z3.And(ff["_index"].t == pos - 1, ff["length"].t == L(items), pos >= 0, pos <= L(items))
+
+        def havoc(st):
+            fl, ns = st.locals["forloop"], st.locals["namespace"]
+            # an earlier iteration left some item bound to the loop variable
+            st.deref(ns).items["item"] = VU(z3.Const(f"stale_item_{len(st.pc)}", U))
+            return [(fl, "_index"), (fl, "item"), (it, None)]
+        c.invariant(0, inv, havoc_heap=havoc)
+        maps0 = list(c.st.deref(c.st.deref(scope).fields["_maps"]).items)
+        c.call(ctx, c.obj("io:StringIO", "buffer", __text__=c.str("out")), self_val=self)
+        empty = L(items) == 0
+
+        def post_else(r):
+            rendered = [e[1] for e in r.st.log if e[0] == "rendered"]
+            n_else = rendered.count("else")
+            return z3.And(z3.Implies(empty, z3.BoolVal(n_else == (1 if has_default else 0) and "block" not in rendered)), z3.Implies(z3.Not(empty), z3.BoolVal(n_else == 0)))
+        c.ensures("else-block-rendered-exactly-when-no-item-is-visited", post_else)
+        c.ensures("loop-scope-and-loop-stack-are-restored", lambda r: z3.BoolVal(r.st.deref(r.st.deref(scope).fields["_maps"]).items == maps0 and r.st.deref(r.st.deref(ctx).fields["loops"]).items == []))
+        c.raises("LiquidSyntaxError", *(["BreakLoop", "ContinueLoop"] if has_default else []))
+        c.ensures_exc("break-and-continue-of-the-loop-body-never-escape", lambda r: z3.Or(z3.BoolVal(r.exc.cls == "LiquidSyntaxError"), empty))
+        c.assume_note("the loop body is an arbitrary callee that returns, raises ContinueLoop/BreakLoop, or fails with a Liquid error; LoopExpression.evaluate returns (iterator over the visited items, their number) -- its own contract is _slice above")
+        c.replay("code", code=REPLAY_FORNODE)
+
+
+for _sfx in ("", "_async"):
+    for _hd in (False, True):
+        _for_node(_sfx, _hd)
+
+REPLAY_FORNODE = r'''
+def run(m):
+    import asyncio
+    from liquid import Environment
+    t = Environment().from_string("{% for x in xs %}{% if x == 2 %}{% continue %}{% endif %}{% if x == 4 %}{% break %}{% endif %}{{ forloop.index }}:{{ x }} {% else %}none{% endfor %}|{{ x }}")
+    out = [t.render(xs=[1, 2, 3, 4, 5]), t.render(xs=[]), asyncio.run(t.render_async(xs=[1, 2, 3, 4, 5])), asyncio.run(t.render_async(xs=[]))]
+    return {"violated": out != ["1:1 3:3 |", "none|", "1:1 3:3 |", "none|"], "observed": out}
+'''
